@@ -192,7 +192,7 @@ func GenFiles1(t *rapid.T, maxFiles, maxBytes int) []FileSpec {
 	n := rapid.IntRange(1, maxFiles).Draw(t, "nfiles")
 	var names []string
 	if n <= len(names1) {
-		names = rapid.Permutation(names1).Draw(t, "names")[:n]
+		names = withSiblings(t, rapid.Permutation(names1).Draw(t, "names")[:n])
 	} else {
 		names = append([]string{}, names1...)
 		for i := len(names1); i < n; i++ {
